@@ -157,7 +157,7 @@ def check_filter(facts, chk, rule, tier, stale_counts=True):
     # the families: every flag combination over a small alphabet, then every PAIR of symbols of the whole alphabet the table can hold
     # (all IUPAC codes, U, gap) with the flags that reach the site predicates - a predicate that conflates two particular symbols
     # (a hashed / bit-masked symbol set) only shows on that pair
-    FULL = 'ACGTU-NRYSWKMBDHV'
+    FULL = 'ACGT-NRYSWKMBDHV'          # every symbol a stored table can hold (U is never stored: bases are 2-bit encoded and decoded to ACGT)
     fams = [(alpha, n, list(itertools.product((0, 1), repeat=4)), None) for n in ns]
     fams.append((FULL, 2, [(f, m, g, 1) for f in (0, 1) for m in (0, 1) for g in (0, 1)] if tier == 'thorough' else [(0, 0, 0, 1), (1, 0, 1, 1), (0, 1, 0, 1), (0, 0, 1, 1)], (0, 2)))
     for alpha_, n, flagsets, mcs in fams:
